@@ -81,7 +81,8 @@ class TestCaseMutation(MutationOperator):
         assert test_factory, "Required for mutation"
         if not test_factory.has_call_on_sut(chromosome.test_case):
             chromosome.test_case = backup
-            chromosome._mutation_insert()  # noqa: SLF001
+            # The (restored) test case is only modified if the insertion succeeds
+            changed = chromosome._mutation_insert()  # noqa: SLF001
 
         if changed:
             chromosome.changed = True
